@@ -222,7 +222,7 @@ struct Simplifier {
 
             case GateType::MX:
                 yield({GateType::H, {}, ts, inst.tag});
-                yield({GateType::M, {}, ts, inst.tag});
+                yield({GateType::M, inst.args, ts, inst.tag});
                 yield({GateType::H, {}, ts, inst.tag});
                 break;
             case GateType::MY:
@@ -230,16 +230,16 @@ struct Simplifier {
                 yield({GateType::S, {}, ts, inst.tag});
                 yield({GateType::S, {}, ts, inst.tag});
                 yield({GateType::H, {}, ts, inst.tag});
-                yield({GateType::M, {}, ts, inst.tag});
+                yield({GateType::M, inst.args, ts, inst.tag});
                 yield({GateType::H, {}, ts, inst.tag});
                 yield({GateType::S, {}, ts, inst.tag});
                 break;
             case GateType::M:
-                yield({GateType::M, {}, ts, inst.tag});
+                yield({GateType::M, inst.args, ts, inst.tag});
                 break;
             case GateType::MRX:
                 yield({GateType::H, {}, ts, inst.tag});
-                yield({GateType::M, {}, ts, inst.tag});
+                yield({GateType::M, inst.args, ts, inst.tag});
                 yield({GateType::R, {}, ts, inst.tag});
                 yield({GateType::H, {}, ts, inst.tag});
                 break;
@@ -248,13 +248,13 @@ struct Simplifier {
                 yield({GateType::S, {}, ts, inst.tag});
                 yield({GateType::S, {}, ts, inst.tag});
                 yield({GateType::H, {}, ts, inst.tag});
-                yield({GateType::M, {}, ts, inst.tag});
+                yield({GateType::M, inst.args, ts, inst.tag});
                 yield({GateType::R, {}, ts, inst.tag});
                 yield({GateType::H, {}, ts, inst.tag});
                 yield({GateType::S, {}, ts, inst.tag});
                 break;
             case GateType::MR:
-                yield({GateType::M, {}, ts, inst.tag});
+                yield({GateType::M, inst.args, ts, inst.tag});
                 yield({GateType::R, {}, ts, inst.tag});
                 break;
             case GateType::RX:
@@ -446,7 +446,7 @@ struct Simplifier {
             case GateType::MXX:
                 yield({GateType::CX, {}, ts, inst.tag});
                 yield({GateType::H, {}, qs1_buf, inst.tag});
-                yield({GateType::M, {}, qs1_buf, inst.tag});
+                yield({GateType::M, inst.args, qs1_buf, inst.tag});
                 yield({GateType::H, {}, qs1_buf, inst.tag});
                 yield({GateType::CX, {}, ts, inst.tag});
                 break;
@@ -456,14 +456,14 @@ struct Simplifier {
                 yield({GateType::S, {}, qs2_buf, inst.tag});
                 yield({GateType::S, {}, qs2_buf, inst.tag});
                 yield({GateType::H, {}, qs1_buf, inst.tag});
-                yield({GateType::M, {}, qs1_buf, inst.tag});
+                yield({GateType::M, inst.args, qs1_buf, inst.tag});
                 yield({GateType::H, {}, qs1_buf, inst.tag});
                 yield({GateType::CX, {}, ts, inst.tag});
                 yield({GateType::S, {}, qs_buf, inst.tag});
                 break;
             case GateType::MZZ:
                 yield({GateType::CX, {}, ts, inst.tag});
-                yield({GateType::M, {}, qs2_buf, inst.tag});
+                yield({GateType::M, inst.args, qs2_buf, inst.tag});
                 yield({GateType::CX, {}, ts, inst.tag});
                 break;
 
